@@ -163,10 +163,10 @@ def RVar.itemFlags (v : RVar) : List Bool := v.items.map (·.missing.flag)
     all shared categories -/
 def RVar.toTVar (v : RVar) : TVar :=
   match v.kind with
-  | .cat | .catDate | .logical => ⟨⟨.cat, v.cats.length, v.catFlags, false⟩, false, []⟩
-  | .datetime | .text | .binned => ⟨⟨.cat, v.elems.length, v.elemFlags, false⟩, false, []⟩
-  | .mr => ⟨⟨.arr, (validIdxs v.itemFlags).length, v.catFlags, true⟩, false, validIdxs v.itemFlags⟩
-  | .ca => ⟨⟨.arr, (validIdxs v.itemFlags).length, v.catFlags, false⟩, v.transposed, validIdxs v.itemFlags⟩
+  | .cat | .catDate | .logical => ⟨⟨.cat, v.cats.length, v.catFlags, false⟩, false, [], 0⟩
+  | .datetime | .text | .binned => ⟨⟨.cat, v.elems.length, v.elemFlags, false⟩, false, [], 0⟩
+  | .mr => ⟨⟨.arr, (validIdxs v.itemFlags).length, v.catFlags, true⟩, false, validIdxs v.itemFlags, v.items.length⟩
+  | .ca => ⟨⟨.arr, (validIdxs v.itemFlags).length, v.catFlags, false⟩, v.transposed, validIdxs v.itemFlags, v.items.length⟩
 
 def designOf (vars : List RVar) : List TVar := vars.map RVar.toTVar
 
